@@ -274,7 +274,11 @@ def build_ann(s, env, spelling=None, preds=None):
             cache[key] = d
         return d
     if k == "rebound":  # Dependent[<narrower bound>, <parametrised value type>]: same check, another bound
-        return Dependent[env[s[1]], build_ann(s[2], env, None, preds)]
+        bound = build_ann(s[1], env, None, preds) if isinstance(s[1], list) else env[s[1]]  # (the bound may be a spec)
+        inner = build_ann(s[2], env, None, preds)
+        if s[2][0] == "lit":
+            inner = D.Equals[tuple(lit_value(x) for x in s[2][1])] if len(s[2][1]) != 1 else D.Equals[lit_value(s[2][1][0])]
+        return Dependent[bound, inner]
     if k == "tup":
         items = tuple(build_ann(x, env, None, preds) for x in s[1])
         return tuple[items] if items else tuple[()]
@@ -375,7 +379,11 @@ def accepts(s, value, env):
             return True
         return None  # equal value of a foreign type (1.0 vs Literal[1]): unspecified
     if k == "rebound":
-        if not isinstance(value, env[s[1]]):
+        if isinstance(s[1], list):
+            b = accepts(s[1], value, env)
+            if b is not True:
+                return b
+        elif not isinstance(value, env[s[1]]):
             return False
         return accepts(s[2], value, env)
     if k == "dep":
@@ -492,6 +500,15 @@ def _canon(s):
     return json.dumps(s, sort_keys=True)
 
 
+def _writes_dep(s):
+    """Does the spec write a Dependent[bound, predicate] anywhere?  Each writing is a new type."""
+    if isinstance(s, list):
+        if s and s[0] == "dep":
+            return True
+        return any(_writes_dep(x) for x in s)
+    return False
+
+
 def order(s1, s2, env):
     """Partial specificity order as far as the documentation fixes it."""
     c1, c2 = static_bound(s1, env), static_bound(s2, env)
@@ -502,7 +519,7 @@ def order(s1, s2, env):
         if a and b:
             return UNSPEC
         return LESS if a else MORE if b else NONE
-    if s1[0] != "dep" and _canon(s1) == _canon(s2):  # NB: python's == would equate False and 0
+    if not _writes_dep(s1) and _canon(s1) == _canon(s2):  # NB: python's == would equate False and 0
         return SAME
     # NB: Dependent[bound, pred] creates a new, unequal type each time it is written, so two parameters
     # with the same ["dep", ...] spec are two different types on the same bound (unordered).
